@@ -599,6 +599,8 @@ def _f_read(it, f, args, kwargs, node):
 
 def _f_write(it, f, args, kwargs, node):
     data = it.resolve(args[0]) if args else UnkV('write arg')
+    if 'global' in f.tags:
+        it.event('mutate-shared', node, target=f, how='write to a module-level file object')
     it.event('write', node, file=f, data=data)
     f.written = getattr(f, 'written', [])
     f.written.append(data)
